@@ -16,10 +16,15 @@
    (disk.tmp, which a kill can leave absent, partial or complete) and is renamed over the
    token file - and whatever an earlier start left in the temporary file is overwritten.
    Model regression only: "tmp_exclusive_create" - the temporary file is created exclusively:
-   a leftover one makes persisting fail (silently), so every later start invents a new token. *)
+   a leftover one makes persisting fail (silently), so every later start invents a new token.
+   The items of ftp, smtp and ldap (Pairs) are a private key AND a certificate made from it, stored
+   one after the other in transactions of their own: a kill between them leaves <<"half", n>> (the
+   key without its certificate); a later start adopts the key and makes the certificate for it.
+   Model regression only: "pair_only_if_both_missing" - key and certificate are generated only when
+   BOTH are missing: a half-written pair is never completed and the service has no certificate.    *)
 EXTENDS Integers, Sequences, FiniteSets, TLC
 
-CONSTANTS Items, Deviations, MaxStarts
+CONSTANTS Items, Pairs, Deviations, MaxStarts
 
 VARIABLES disk,      \* [token, tmp, items]
           mem,       \* identity presented by the running process: [token, items] ("none" when down)
@@ -76,10 +81,18 @@ TokenRename ==
 
 ItemStep(i) ==
   /\ pc = "items" /\ i \in enabled /\ mem.items[i] = Absent
-  /\ IF disk.items[i] = Absent
-       THEN /\ disk' = [disk EXCEPT !.items[i] = <<"item", fresh>>]
+  /\ CASE disk.items[i] = Absent /\ i \in Pairs ->
+            \* the key first, in a transaction of its own
+            disk' = [disk EXCEPT !.items[i] = <<"half", fresh>>] /\ fresh' = fresh + 1 /\ UNCHANGED mem
+       [] disk.items[i] = Absent /\ i \notin Pairs ->
+            /\ disk' = [disk EXCEPT !.items[i] = <<"item", fresh>>]
             /\ mem' = [mem EXCEPT !.items[i] = <<"item", fresh>>] /\ fresh' = fresh + 1
-       ELSE mem' = [mem EXCEPT !.items[i] = disk.items[i]] /\ UNCHANGED <<disk, fresh>>
+       [] disk.items[i][1] = "half" ->
+            IF "pair_only_if_both_missing" \in Deviations
+              THEN mem' = [mem EXCEPT !.items[i] = <<"broken", 0>>] /\ UNCHANGED <<disk, fresh>>
+              ELSE /\ disk' = [disk EXCEPT !.items[i] = <<"item", disk.items[i][2]>>]
+                   /\ mem' = [mem EXCEPT !.items[i] = <<"item", disk.items[i][2]>>] /\ UNCHANGED fresh
+       [] OTHER -> mem' = [mem EXCEPT !.items[i] = disk.items[i]] /\ UNCHANGED <<disk, fresh>>
   /\ UNCHANGED <<pc, enabled, starts, seen>>
 
 Up == /\ pc = "items" /\ \A i \in enabled : mem.items[i] # Absent
@@ -97,7 +110,7 @@ Spec == Init /\ [][Next]_vars
 \* ---- properties -------------------------------------------------------------------
 \* a completed start presents a well-formed, non-empty identity
 WellFormed == \A k \in 1..Len(seen) : WellFormedToken(seen[k].token)
-              /\ \A i \in seen[k].enabled : seen[k].items[i] # Absent
+              /\ \A i \in seen[k].enabled : seen[k].items[i][1] = "item"
 \* once a start has completed, every later completed start presents the same identity
 Stable == \A a, b \in 1..Len(seen) : a < b =>
             /\ seen[a].token = seen[b].token
